@@ -2,7 +2,9 @@
 //
 // Case kinds (fields separated by one blank; byte strings in hex, "-" = empty):
 //
-//	uri     <passes p>[L] <finalNL> <file> <line tokens...>     (L: provider with preload: true)
+//	uri     <passes p>[L][@sched] <finalNL> <file> <line tokens...>     (L: provider with preload: true;
+//	        @sched: instance schedule, digits = instance ids, an event of an instance that holds no ammo is
+//	        an Acquire, otherwise the shoot (request materialised, body read) + Release of what it holds)
 //	uripost <passes p> <finalNL> <file> <line tokens...>
 //	raw     <passes p> <finalNL> <file> <line tokens...>
 //	json    <passes p> <array 0|1> <file> <entity tokens...>
@@ -30,14 +32,27 @@ func runCase(c string) string {
 		return "bad-case"
 	}
 	// passes field: "<p>" or "<p>L" (L = with preload: true)
-	preload := strings.HasSuffix(f[1], "L")
-	p, _ := strconv.Atoi(strings.TrimSuffix(f[1], "L"))
+	// then optionally "@<schedule>": instance schedule, see a07ammo/sched.go
+	pf, sched, hasSched := strings.Cut(f[1], "@")
+	preload := strings.HasSuffix(pf, "L")
+	p, _ := strconv.Atoi(strings.TrimSuffix(pf, "L"))
 	file := vh.UnHex(f[3])
 	n := 0
 	for _, t := range f[4:] {
 		if strings.HasPrefix(t, "R:") || strings.HasPrefix(t, "E:") {
 			n++
 		}
+	}
+	dec := f[0]
+	if dec == "json" {
+		dec = "jsonline"
+	}
+	if hasSched {
+		switch f[0] {
+		case "uri", "uripost", "raw", "json":
+			return a07ammo.RunProviderSched(dec, file, preload, sched)
+		}
+		return "unknown-case"
 	}
 	switch f[0] {
 	case "uri", "uripost", "raw":
@@ -54,6 +69,7 @@ func gen(r *vh.Rand, tier string) []string {
 		n = 6000
 	}
 	out := a07ammo.GenBigCases(r, tier == "thorough")
+	out = append(out, a07ammo.GenRound5Cases(r, n/5)...)
 	for i := 0; i < n; i++ {
 		out = append(out, a07ammo.GenURICase(r))
 		out = append(out, a07ammo.GenURIPostCase(r))
